@@ -212,6 +212,20 @@ impl<T: Sc> Inst<T> {
         }
     }
 
+    /// like `make` for the table kind, but the builder calls come in the order weights, epsilon,
+    /// observations (the property does not depend on the order of the builder calls)
+    fn make_flipped(&self, a0: &[i64], mrhs: bool, par: bool, y: &DMatrix<T>, w: Option<&[T]>, ev: EpsVar) -> Result<Box<dyn Prob<T>>, String> {
+        let mut calls = Vec::new();
+        if let Some(w) = w {
+            calls.push(BCall::Weights(w.to_vec()));
+        }
+        if let Some(e) = self.eps_value(ev) {
+            calls.push(BCall::Epsilon(e));
+        }
+        calls.push(BCall::Observations(y.clone()));
+        build_with_calls(TableModel::new(self.table.clone(), a0), mrhs, par, &calls).map_err(|e| format!("problem builder: {e:?}"))
+    }
+
     /// build a problem of the requested flavour with initial parameters a0
     fn make(
         &self,
@@ -532,7 +546,12 @@ fn run_inst<T: Sc>(line: &Line, idx: usize, pools: &Pools, opts: &Opts, rep: &mu
                         continue;
                     }
                 }
-                let mut prob = match inst.make(kind, &a_first, mrhs, false, &inst.y, wref, ev) {
+                let built = if kind == Kind::Table && (idx + ki) % 2 == 1 {
+                    inst.make_flipped(&a_first, mrhs, false, &inst.y, wref, ev)
+                } else {
+                    inst.make(kind, &a_first, mrhs, false, &inst.y, wref, ev)
+                };
+                let mut prob = match built {
                     Ok(p) => p,
                     Err(e) => {
                         // C18: consistent inputs must build
@@ -660,7 +679,9 @@ fn run_inst<T: Sc>(line: &Line, idx: usize, pools: &Pools, opts: &Opts, rep: &mu
     if inst.s >= 2 {
         let ev = EpsVar::User;
         let flav = tag(idx, &fam, T::NAME, Kind::Table, true, false, ev);
-        if let Ok(mut multi) = inst.make(Kind::Table, &a_first, true, false, &inst.y, wref, ev) {
+        let multi_par = idx % 2 == 1;
+        let flav = format!("{} multi_par={}", flav, multi_par);
+        if let Ok(mut multi) = inst.make(Kind::Table, &a_first, true, multi_par, &inst.y, wref, ev) {
             let mut singles = Vec::new();
             for s in 0..inst.s {
                 let ycol = DMatrix::from_fn(inst.n, 1, |i, _| inst.y[(i, s)]);
@@ -668,7 +689,7 @@ fn run_inst<T: Sc>(line: &Line, idx: usize, pools: &Pools, opts: &Opts, rep: &mu
             }
             // permuted observation columns (reversed)
             let yperm = DMatrix::from_fn(inst.n, inst.s, |i, s| inst.y[(i, inst.s - 1 - s)]);
-            let mut perm = inst.make(Kind::Table, &a_first, true, false, &yperm, wref, ev).ok();
+            let mut perm = inst.make(Kind::Table, &a_first, true, multi_par, &yperm, wref, ev).ok();
             for &qi in order.iter().take(npts) {
                 let a: Vec<T> = inst.line.pts[qi].a.iter().map(|&v| T::of64(v as f64)).collect();
                 multi.set_params(&a);
